@@ -269,3 +269,26 @@ def normalise_adversary(events):
             yield {"ev": "Probe", "t": t, "ok": 1 if e["ok"] else 0}
         elif ev == "SimError":
             yield {"ev": "SimError", "t": 0, "err": e["err"]}
+
+
+def normalise_ownership(events):
+    """Normalised events for Trace_Ownership.tla (C24 end to end): writers with strengths, the reader's deadline, write /
+    unregister results with the time of the call's return, deletions of writers, takes (valid samples only)."""
+    for e in events:
+        ev = e["ev"]
+        t = us(e.get("t", 0))
+        if ev == "Reset":
+            yield {"ev": "Reset", "t": 0}
+        elif ev == "CreateWriter" and e.get("res") == "Ok":
+            yield {"ev": "Writer", "t": t, "w": e["w"], "strength": int((e.get("qos") or {}).get("strength") or 0)}
+        elif ev == "CreateReader" and e.get("res") == "Ok":
+            dl = (e.get("qos") or {}).get("deadline_ms")
+            yield {"ev": "Reader", "t": t, "deadline": -1 if dl is None or dl < 0 else int(dl) * 1000}
+        elif ev == "WriteRet":
+            yield {"ev": "Write", "t": t, "w": e["w"], "i": e["i"], "seq": e["seq"], "kind": e["kind"], "ok": 1 if e["res"] == "Ok" else 0}
+        elif ev == "DeleteWriter":
+            yield {"ev": "DelWriter", "t": t, "w": e["w"]}
+        elif ev in ("Take", "Read"):
+            yield {"ev": "Take", "t": t, "samples": [{"w": s["w"], "seq": s["seq"], "i": s["i"]} for s in e["samples"] if "seq" in s]}
+        elif ev == "SimError":
+            yield {"ev": "SimError", "t": 0, "err": e["err"]}
